@@ -19,24 +19,6 @@ import collections
 import corpus
 import engine_run as er
 
-import glob
-import os
-
-import vlib
-
-
-def _keep_vmain_alive():
-    """workaround for a shared-cache race (vlib.prune_cache removes the oldest cache directories at the end of any
-    check; the shared vmain-<hash>/vmain.o is never touched after creation and can vanish under a concurrent run)"""
-    for d in glob.glob(os.path.join(vlib.BUILD, "corpus", "vmain-*")):
-        try:
-            os.utime(d)
-        except OSError:
-            pass
-
-
-_keep_vmain_alive()
-
 MAXLEN = {"quick": 4, "thorough": 5}
 BASE_CORPUS = True
 
@@ -231,17 +213,32 @@ def oracle(K, rec, counters):
     return out
 
 
+def impl_twins_agree(K, rec):
+    """do the IMPLEMENTATION's eager and lazy records of this (grammar, configuration, input) coincide?"""
+    ix = getattr(K, "_c06_index", None)
+    if ix is None:
+        ix = K._c06_index = {}
+        for r in K.impl:
+            pol, lazy, init, key = cfg_parts(r["cfg"])
+            ix[(r["gid"], key, r["input"], lazy)] = r
+    pol, lazy, init, key = cfg_parts(rec["cfg"])
+    e = ix.get((rec["gid"], key, rec["input"], False))
+    l = ix.get((rec["gid"], key, rec["input"], True))
+    return e is not None and l is not None and (e["res"], e["cur"], e["events"]) == (l["res"], l["cur"], l["events"])
+
+
 def projection(rec, K, model):
     """everything: result with positions, final cursor, every event with its positions.
-    Two behaviours of LAZY inputs are outside the (eager) engine model and are judged by the oracle (eager/lazy twin
-    comparison) instead of the model comparison: bof with a non-zero initial byte (a lazy input's byte() is the offset
-    from begin()), and positions inside rematch (the inner lazy input restarts at 0:1:1) — for the latter the result
-    kind and the final position are still compared."""
+    Two behaviours of LAZY inputs are outside the (eager) engine model: bof with a non-zero initial byte (a lazy
+    input's byte() is the offset from begin()) and positions inside rematch (the inner lazy input restarts at 0:1:1).
+    Where the implementation's own eager and lazy records of such a case DIFFER, the oracle reports it (known
+    findings) and the model comparison is reduced to what the model covers; where they agree (always, once the
+    library is repaired) the full projection is compared."""
     pol, lazy, init, key = cfg_parts(rec["cfg"])
     fl = table_flags(K).get(rec["gid"], {})
-    if lazy and init[0] != 0 and fl.get("bof"):
-        return "lazy-bof-with-initial-byte"
-    if lazy and fl.get("rematch"):
+    if lazy and ((init[0] != 0 and fl.get("bof")) or fl.get("rematch")) and not impl_twins_agree(K, rec):
+        if init[0] != 0 and fl.get("bof"):
+            return "lazy-bof-with-initial-byte"
         return rec["res"][:1] + "|" + rec["cur"]
     res = er.canon_model_res(K, rec) if model else er.canon_impl_res(rec)
     return res + "|" + rec["cur"] + "|" + rec["events"]
